@@ -213,6 +213,12 @@ func NewWorld(cfg Config) *World {
 		if err := w.k.RegisterModuleService(types.RegisterModuleName, &types.ModuleService{
 			ServiceName: types.OraclePriceServiceName, Provider: types.OraclePriceServiceProvider,
 			ReuquestService: func(ctx sdk.Context, input string) (string, string) {
+				switch rate {
+				case "unavailable": // the service is there but has no feed for the pair
+					return `{"code":500,"message":"no feed"}`, ""
+				case "malformed": // an answer that does not follow the service's output schema
+					return `{"code":200,"message":""}`, `{"header":{},"body":{"price":"1"}}`
+				}
 				return `{"code":200,"message":""}`, `{"header":{},"body":{"rate":"` + rate + `"}}`
 			},
 		}); err != nil {
